@@ -47,6 +47,7 @@ for _p in ["C%02d" % i for i in range(1, 20)]:
 PROPS["C02"]["driver"] = "c01"; PROPS["C03"]["driver"] = "c01"
 PROPS["C02"]["harness_v"] = "Harness/C01H.vo"; PROPS["C03"]["harness_v"] = "Harness/C01H.vo"
 PROPS["C07"]["variants"] = [("bin", "verif binary_log")]   # the same driver built a second time with the binary encoder
+PROPS["C05"]["race"] = True
 PROPS["C06"]["race"] = True
 PROPS["C15"]["race"] = True
 PROPS["C18"]["race"] = True
